@@ -68,10 +68,16 @@ def run(ctx: Context) -> None:
                       and (f"'clim' in {kw_name}", False) in guards(mp, clim[0]))
         ctx.check('R19.1', ok, "default colour limits span exactly the plotted (masked) values; a caller's clim is kept", mp, clim[0] if clim else mp.node)
         if clim:
-            gc = guards(mp, clim[0])
-            nonempty = any(pol and t.replace(' ', '') in (f"{norm_text(arr[0].value)}.size>0".replace(' ', ''), 'values.size>0', 'len(values)>0', 'values.size', 'values.size!=0') for t, pol in gc)
+            # the guard has to stand before the nanmin / nanmax calls themselves, wherever their results are kept
+            from .common import expand_locals as _x19, facts as _f19
+            vtext = norm_text(_x19(flow, arr[0].value)).replace(' ', '')
+            forms = {(f"{vtext}.size>0", True), (f"{vtext}.size==0", False), (f"{vtext}.size", True), (f"len({vtext})>0", True), (f"len({vtext})==0", False),
+                     (f"{vtext}.size>=1", True), (f"{vtext}.size<1", False)}
+            calls_ = [c for c in calls_in(mp) if callee(ctx, mp, c) in ('numpy.nanmin', 'numpy.nanmax')]
+            gc = sorted({(t, pol) for c in calls_ for t, pol in _f19(ctx, mp, c)})
+            nonempty = bool(calls_) and all(any((t.replace(' ', ''), pol) in forms for t, pol in _f19(ctx, mp, c)) for c in calls_)
             ctx.check('R19.1', nonempty, "the default limits are only computed when something is plotted: nanmin / nanmax raise for the empty array of a dataset where no cell has a polygon "
-                      "(which is plotted as an empty collection when no variable is given)", mp, clim[0], construct=f"clim guards: {gc}")
+                      "(which is plotted as an empty collection when no variable is given)", mp, clim[0], construct=f"known at nanmin / nanmax: {gc}"[:400])
         if ravels:
             _on_cells_only(ctx, mp, flow, ravels[0], 'R19.1', "make_poly_collection pairs values with cell polygons")
         ok = len(ravels) == 1 and len(ravels[0].args) == 1 and flow.reaches(ravels[0].args[0], lambda n: isinstance(n, ast.Call) and (callee(ctx, mp, n) or '').endswith('name_to_data_array'))
